@@ -49,7 +49,8 @@ WAIT_MS = 30000  # what the oracle waits (>= settle)
 MDNS = vsim.MDNS_ADDR
 
 CFG = dict(ann=[350, 575, 800], upd=[0, 225, 450], bye=[0, 125, 250], maxDelay=100, qLo=20, qHi=120,
-           qOff=[0, 1000, 5000, 14000], dupQ=999, respBefore=1000, respAfter=1200, regDelay=350)
+           qOff=[0, 1000, 5000, 14000], dupQ=999, respBefore=1000, respAfter=1200, regDelay=350,
+           ptrMinTtl=1125, cleanup=10000, refreshAt=[750, 850], refreshEarly=10000, refreshWin=25000)
 
 
 # ------------------------------------------------------------------------------------------
@@ -71,7 +72,72 @@ def gen_close_family(rng):
             "net": {"seed": rng.randrange(1 << 30), "mode": rng.choice(["extreme", "extreme", "mixed"]), "drop": None, "dups": "none"}}
 
 
-def gen_case(rng, idx=0):
+def gen_flap_family(rng):
+    """long horizon (a): a service flaps (register / unregister / re-register within 0-15 s) in front of browsers that were
+    already there, then nothing changes for more than two virtual hours; every browser is observed every few minutes: the
+    refresh machinery (75 % / 85 % / 95 % of the 4500 s PTR TTL) has to keep the re-registered instance alive"""
+    nh = rng.choice([2, 2, 3])
+    nsvc = rng.choice([1, 1, 2])
+    svcs = [{"owner": 0, "ty": 0} for _ in range(nsvc)]
+    ops = [[rng.choice([0, 1, rng.randint(0, 300)]), "browse", 1, 0]]
+    if nh == 3 and rng.random() < 0.7:
+        ops.append([rng.choice([0, rng.randint(0, 2000), rng.randint(0, 20000)]), "browse", 2, 0])
+    for i in range(nsvc):
+        t = rng.choice([400, 1000, rng.randint(350, 3000)])
+        ops.append([t, "register", i])
+        cur = t + 350
+        flaps = rng.choice([1, 1, 2]) if i == 0 else rng.choice([0, 1])
+        for _ in range(flaps):
+            cur += rng.choice([1, 300, 1000, 2500, rng.randint(1, 6000)])
+            ops.append([cur, "unregister", i])
+            cur += rng.choice([150, 400, 1000, 1100, 2000, rng.randint(101, 5000)])
+            ops.append([cur, "register", i])
+            cur += 350
+    ops.sort(key=lambda o: (o[0], o[1]))
+    return {"simseed": rng.randrange(1 << 30), "hosts": [{"up": 0} for _ in range(nh)], "types": 1, "svcs": svcs, "ops": ops,
+            "horizon": rng.choice([7500000, 7500000, 9000000]), "every": rng.choice([240000, 300000, 420000]), "family": "flap-long",
+            "net": {"seed": rng.randrange(1 << 30), "mode": rng.choice(["uniform", "extreme", "mixed"]), "drop": None,
+                    "dups": rng.choice(["none", "none", "some"])}}
+
+
+def gen_late_browser_family(rng):
+    """long horizon (b): browsers started 1-80 virtual minutes after the last announcement, on a host that overheard it (the
+    cached PTR is fresh, stale, or expired by then) and on a host that came up later and did not; optionally an early browser
+    elsewhere whose refresh traffic everybody overhears"""
+    nh = rng.choice([2, 3, 3, 4])
+    minute = 60000
+    hosts = [{"up": 0} for _ in range(nh)]
+    nsvc = rng.choice([1, 1, 2])
+    svcs = [{"owner": 0, "ty": 0} for _ in range(nsvc)]
+    ops = [[rng.choice([0, 1, rng.randint(0, 2000)]), "register", i] for i in range(nsvc)]
+    if rng.random() < 0.3:
+        ops.append([rng.randint(3000, 20000), "update", 0])
+    m = rng.choice([1, 5, 10, 30, 37, 38, 40, 45, 50, 56, 57, 60, 65, 70, 74, 75, 76, 80]) * minute + rng.choice([0, 1, rng.randint(0, minute)])
+    ops.append([m, "browse", 1, 0])
+    if nh >= 3:
+        if rng.random() < 0.6:  # a host that did not overhear anything
+            hosts[2]["up"] = rng.choice([rng.randint(2, 70) * minute, m + rng.randint(-minute, minute)])
+            ops.append([hosts[2]["up"] + rng.choice([0, 1, rng.randint(0, 5000)]), "browse", 2, 0])
+        else:
+            ops.append([rng.randint(1, 75) * minute, "browse", 2, 0])
+    if nh == 4 and rng.random() < 0.5:  # an early browser: its 75 % refresh question is answered by multicast
+        ops.append([rng.choice([0, rng.randint(0, 5000)]), "browse", 3, 0])
+    ops.sort(key=lambda o: (o[0], o[1]))
+    return {"simseed": rng.randrange(1 << 30), "hosts": hosts, "types": 1, "svcs": svcs, "ops": ops,
+            "horizon": rng.choice([120000, 600000, 3600000]), "every": rng.choice([60000, 120000, 300000]), "family": "late-browser",
+            "net": {"seed": rng.randrange(1 << 30), "mode": rng.choice(["uniform", "extreme", "mixed"]), "drop": None,
+                    "dups": rng.choice(["none", "none", "some"])}}
+
+
+def gen_case(rng, idx=0, long_p=0.05):
+    # the first scenarios of every run are long-horizon ones (alternating), then each long family with probability long_p
+    if idx < 6:
+        return gen_flap_family(rng) if idx % 2 == 0 else gen_late_browser_family(rng)
+    r = rng.random()
+    if r < long_p:
+        return gen_flap_family(rng)
+    if r < 2 * long_p:
+        return gen_late_browser_family(rng)
     if rng.random() < 0.12:
         return gen_close_family(rng)
     nh = rng.choice([2, 2, 3, 3, 4, 5])
@@ -431,11 +497,23 @@ def run_case(case):
         await asyncio.gather(*tasks)
         last = max(api_times) if api_times else 0
         out["lastChange"] = last
-        await sim.sleep_until(last + WAIT_MS)
+        # observations: once WAIT_MS after the last change, then (long-horizon cases) every `every` ms until `horizon`
+        obs_times = [last + WAIT_MS]
+        if case.get("horizon"):
+            t = last + WAIT_MS
+            while t < last + case["horizon"]:
+                t += case.get("every", 300000)
+                obs_times.append(t)
+        out["observations"] = []
+        for ot in obs_times:
+            await sim.sleep_until(ot)
+            trace.append([now(), "obs"])
+            out["observations"].append({"t": now(), "final": [
+                {"b": b, "host": br["host"], "ty": br["ty"], "closed": hstate[br["host"]] != "up",
+                 "live": sorted(names[n.lower()] for n in br["listener"].live if n.lower() in names),
+                 "bad": list(br["listener"].bad)} for b, br in enumerate(browsers)]})
         out["endT"] = now()
-        out["final"] = [{"b": b, "host": br["host"], "ty": br["ty"], "closed": hstate[br["host"]] != "up",
-                         "live": sorted(names[n.lower()] for n in br["listener"].live if n.lower() in names),
-                         "bad": br["listener"].bad} for b, br in enumerate(browsers)]
+        out["final"] = out["observations"][-1]["final"]
         out["registered"] = [i for i in range(len(svcs)) if sstate[i] == "registered"]
         out["inflight"] = [i for i in range(len(svcs)) if sstate[i] == "registering"]
         for br in browsers:
@@ -510,6 +588,8 @@ def norm_trace(case, obs):
             tr.append((t, k, e[2], e[3], e[4], bool(e[5]), items(e[6])))
         elif k in ("add", "rem"):
             tr.append((t, k, B(e[2]), S(e[3])))
+        elif k == "obs":
+            tr.append((t, k))
     return tr
 
 
@@ -537,6 +617,8 @@ def lean_line(tr, endT):
             out.append("send %d %d %d %s %s" % (t, e[2], e[3], "-" if e[4] is None else str(e[4]), its(e[5])))
         elif k == "dlv":
             out.append("dlv %d %d %d %d %s %s" % (t, e[2], e[3], e[4], C.b01(e[5]), its(e[6])))
+        elif k == "obs":
+            out.append("obs %d" % t)
         else:
             out.append("%s %d %s %s" % (k, t, S(e[2]), S(e[3])))
     return " ".join(" ".join(out).split())
@@ -570,6 +652,26 @@ def held(tr, h, s):
     return v
 
 
+def last_ptr(tr, h, s):
+    """(ttl, time) of the last PTR(s) processed by h, or None"""
+    v = None
+    for e in tr:
+        if e[1] == "dlv" and e[4] == h:
+            p = ptr_of(e[6], s)
+            if p is not None:
+                v = (p, e[0])
+    return v
+
+
+def eff_ttl(ttl, cfg=None):
+    return max(ttl, (cfg or CFG)["ptrMinTtl"]) * 1000
+
+
+def unexpired(tr, h, s, T, grace, cfg=None):
+    v = last_ptr(tr, h, s)
+    return True if v is None else T < v[1] + eff_ttl(v[0], cfg) + grace
+
+
 def live(tr, b, s):
     v = False
     for e in tr:
@@ -595,7 +697,7 @@ def last_change(tr):
 
 def monitors(tr, endT, cfg=CFG):
     """name -> list of witnesses of violation (empty = contract holds on this trace)"""
-    bad = {k: [] for k in ("WF", "K1", "K2", "K3", "K4", "K5", "K6", "K7", "K5a", "K6f")}
+    bad = {k: [] for k in ("WF", "K1", "K2", "K3", "K4", "K5", "K6", "K7", "K5a", "K6f", "K3b", "KF")}
     ev = lambda k: [e for e in tr if e[1] == k]
     ups, closes, regs, upds, unregs, browses, sends, dlvs = (ev(k) for k in ("up", "close", "reg", "upd", "unreg", "browse", "send", "dlv"))
     D = cfg["maxDelay"]
@@ -767,21 +869,24 @@ def monitors(tr, endT, cfg=CFG):
                     if not ok:
                         bad["K4"].append(["query-unanswered", a, h, s, it[3]])
 
-    # ---- K5: at every time cut, live = held /\ type, for browsers on hosts not closed so far
-    cuts = sorted({e[0] for e in tr} | {endT})
-    heldm, livem, brs, closed, universe = {}, {}, [], set(), []
+    # ---- K5: at every instant at which something relevant happened or the observer looked (and at the end), for browsers on
+    # hosts not closed so far: heldFresh /\ type -> live -> heldGrace /\ type   (held = last PTR positive; Fresh = unexpired;
+    # Grace = expired less than one cache-cleanup period ago: the Removed callback fires at the cleanup)
+    def relevant(e):
+        return (e[1] == "dlv" and any(it[0] == "p" for it in e[6])) or e[1] in ("add", "rem", "browse", "close", "obs")
+
+    cuts = sorted({e[0] for e in tr if relevant(e)} | {endT})
+    lastm, livem, brs, closed, universe = {}, {}, [], set(), []
     i = 0
     for T in cuts:
         while i < len(tr) and tr[i][0] <= T:
             e = tr[i]
             i += 1
             if e[1] == "dlv":
-                for it in e[6]:
-                    if it[0] == "p":
-                        if it[1] not in universe:
-                            universe.append(it[1])
-                        if ptr_of(e[6], it[1]) == it[2]:
-                            heldm[(e[4], it[1])] = it[2] > 0
+                for sv in ptr_svcs(e[6]):
+                    if sv not in universe:
+                        universe.append(sv)
+                    lastm[(e[4], sv)] = (ptr_of(e[6], sv), e[0])
             elif e[1] in ("add", "rem"):
                 livem[(e[2], e[3])] = e[1] == "add"
                 if e[3] not in universe:
@@ -793,15 +898,65 @@ def monitors(tr, endT, cfg=CFG):
         for b in brs:
             if b[0] in closed:
                 continue
-            for s in universe:
-                want = heldm.get((b[0], s), False) and s[1] == b[1]
-                if livem.get((b, s), False) != want:
-                    bad["K5"].append(["live-differs-from-cache", T, b, s, livem.get((b, s), False), want])
+            for sv in universe:
+                lp = lastm.get((b[0], sv))
+                heldv = lp is not None and lp[0] > 0
+                fresh = heldv and T < lp[1] + eff_ttl(lp[0], cfg)
+                grace = heldv and T < lp[1] + eff_ttl(lp[0], cfg) + cfg["cleanup"]
+                lv = livem.get((b, sv), False)
+                if (fresh and sv[1] == b[1] and not lv) or (lv and not (grace and sv[1] == b[1])):
+                    bad["K5"].append(["live-differs-from-cache", T, b, sv, lv, [heldv, fresh, grace]])
+
+    # ---- K3b: refresh.  A browsing host that processed PTR(s) TTL>0 at t (and no PTR(s) since, up to the end of the window)
+    # asks for the type again without listing s, within refreshWin of t + 75% / 85% TTL (or of the browser's start if later)
+    def asks_without(items, ty, sv):
+        return any(it[0] == "q" and it[1] == ty and not it[3] and sv not in it[2] for it in items)
+
+    for bw in browses:
+        tb, _, br = bw
+        h, ty, _ = br
+        if not never_closed(h):
+            continue
+        for x in dlvs:
+            if x[4] != h:
+                continue
+            for sv in ptr_svcs(x[6]):
+                ttl = ptr_of(x[6], sv)
+                if sv[1] != ty or not ttl > 0:
+                    continue
+                for k in cfg["refreshAt"]:
+                    due = x[0] + k * (eff_ttl(ttl, cfg) // 1000)
+                    lo = tb if due < tb else due
+                    hi = lo + cfg["refreshWin"]
+                    if hi > endT:
+                        continue
+                    if any(e[4] == h and ptr_of(e[6], sv) is not None and x[0] < e[0] <= hi for e in dlvs):
+                        continue
+                    early = lo - cfg["refreshEarly"] - cfg["dupQ"]  # "avoid churn": a refreshed record keeps a schedule up to 10 s early
+                    ok = any(sd[2] == h and sd[4] is None and early <= sd[0] <= hi and asks_without(sd[5], ty, sv) for sd in sends) \
+                        or any(e[4] == h and e[5] and early <= e[0] <= hi and asks_without(e[6], ty, sv) for e in dlvs)
+                    if not ok:
+                        bad["K3b"].append(["held-ptr-not-requeried", x[0], k, br, sv])
+
+    # ---- KF: on a browsing host the PTR of a registered instance of its type is unexpired at the end of the window
+    dlv_svcs = []
+    for e in dlvs:
+        for sv in ptr_svcs(e[6]):
+            if sv not in dlv_svcs:
+                dlv_svcs.append(sv)
+    for bw in browses:
+        br = bw[2]
+        if not never_closed(br[0]):
+            continue
+        for sv in dlv_svcs:
+            if sv[1] == br[1] and registered(tr, sv) and not unexpired(tr, br[0], sv, endT, 0, cfg):
+                bad["KF"].append(["registered-instance-expired-on-browsing-host", endT, br, sv])
     return bad
 
 
-def conclusion(tr):
-    """the theorem's conclusion evaluated on the trace: list of (browser, svc) where live != registered-of-type"""
+def conclusion(tr, endT=None):
+    """the theorem's conclusion at every observation instant >= lastChange + settle and at the end of the window: list of
+    (T, browser, svc) where live != registered-of-type on the prefix up to T"""
     closes = {e[2] for e in tr if e[1] == "close"}
     svcs = []
     for e in tr:
@@ -809,12 +964,19 @@ def conclusion(tr):
             s = e[2] if e[1] == "reg" else e[3]
             if s not in svcs:
                 svcs.append(s)
+    if endT is None:
+        endT = tr[-1][0] if tr else 0
+    lc = last_change(tr)
     out = []
-    for e in tr:
-        if e[1] == "browse" and e[2][0] not in closes:
+    brs = [e[2] for e in tr if e[1] == "browse" and e[2][0] not in closes]
+    for T in [e[0] for e in tr if e[1] == "obs"] + [endT]:
+        if T < lc + SETTLE_MS:
+            continue
+        p = [e for e in tr if e[0] <= T]
+        for b in brs:
             for s in svcs:
-                if live(tr, e[2], s) != (registered(tr, s) and s[1] == e[2][1]):
-                    out.append((e[2], s))
+                if live(p, b, s) != (registered(p, s) and s[1] == b[1]):
+                    out.append((T, b, s))
     return out
 
 
@@ -828,24 +990,40 @@ def oracle(case, obs):
     svcs = case["svcs"]
     reg = set(obs["registered"])
     tr = obs["trace"]
-    for f in obs["final"]:
-        if f["closed"]:
-            continue
-        want = sorted(i for i in reg if svcs[i]["ty"] == f["ty"])
-        got = f["live"]
-        if got != want:
-            extra = sorted(set(got) - set(want))
-            miss = sorted(set(want) - set(got))
-            if extra:
-                cause = resurrection_cause(case, obs, extra[0])
-                v.append(("C07:not-removed:" + cause,
-                          "browser %d on H%d still reports s%d %d ms after the last change although it is not registered (%s)"
-                          % (f["b"], f["host"], extra[0], obs["endT"] - obs["lastChange"], cause)))
-            if miss:
-                v.append(("C07:not-added", "browser %d on H%d does not report registered s%d %d ms after the last change"
-                          % (f["b"], f["host"], miss[0], obs["endT"] - obs["lastChange"])))
-        for b in f["bad"]:
-            v.append(("C07:callback-" + b[0], "listener of browser %d got %s for %s at %d" % (f["b"], b[0], b[1], b[2])))
+    seen = set()
+    for ob in obs.get("observations") or [{"t": obs["endT"], "final": obs["final"]}]:
+        after = ob["t"] - obs["lastChange"]
+        for f in ob["final"]:
+            if f["closed"]:
+                continue
+            want = sorted(i for i in reg if svcs[i]["ty"] == f["ty"])
+            got = f["live"]
+            if got != want:
+                extra = sorted(set(got) - set(want))
+                miss = sorted(set(want) - set(got))
+                if extra and ("x", f["b"], extra[0]) not in seen:
+                    seen.add(("x", f["b"], extra[0]))
+                    cause = resurrection_cause(case, obs, extra[0])
+                    v.append(("C07:not-removed:" + cause,
+                              "browser %d on H%d still reports s%d %d ms after the last change although it is not registered (%s)"
+                              % (f["b"], f["host"], extra[0], after, cause)))
+                if miss and ("m", f["b"], miss[0]) not in seen:
+                    seen.add(("m", f["b"], miss[0]))
+                    # was it reported (Added, after its last registration) and taken away again, or never reported?
+                    last_reg = max([e[0] for e in tr if e[1] == "reg" and e[2] == miss[0]] or [0])
+                    cbs = [e for e in tr if e[1] in ("add", "rem") and e[2] == f["b"] and e[3] == miss[0] and e[0] >= last_reg and e[0] <= ob["t"]]
+                    if cbs and cbs[-1][1] == "rem" and any(c[1] == "add" for c in cbs):
+                        v.append(("C07:removed-while-registered",
+                                  "browser %d on H%d reported registered s%d and then Removed it at %d ms (%d ms after the last change); "
+                                  "it is still missing %d ms after the last change"
+                                  % (f["b"], f["host"], miss[0], cbs[-1][0], cbs[-1][0] - obs["lastChange"], after)))
+                    else:
+                        v.append(("C07:not-added", "browser %d on H%d does not report registered s%d %d ms after the last change"
+                                  % (f["b"], f["host"], miss[0], after)))
+            for b in f["bad"]:
+                if ("b", f["b"], tuple(b)) not in seen:
+                    seen.add(("b", f["b"], tuple(b)))
+                    v.append(("C07:callback-" + b[0], "listener of browser %d got %s for %s at %d" % (f["b"], b[0], b[1], b[2])))
     # lookups from Added: judged when the instance was registered when Added fired and stayed so until the lookup ended
     # (an Added for an instance that is not registered is the resurrection reported above, not a lookup failure)
     unreg_times = {}
@@ -906,7 +1084,7 @@ def check_case(case, res, ctx, tag, lean_jobs):
     endT = obs["endT"]
     vio = oracle(case, obs)
     mon = monitors(tr, endT)
-    conc = conclusion(tr)
+    conc = conclusion(tr, endT)
     brief = {"case": case, "tag": tag}
     for sig, what in vio:
         res.violate(sig, what, brief)
@@ -953,7 +1131,7 @@ def lean_compare(res, lean_jobs):
     except C.DriverUnavailable as ex:
         res.notes.append("driver unavailable: %s" % ex)
         return
-    names = ["WF", "K1", "K2", "K3", "K4", "K5", "K6", "K7", "K5a", "K6f"]
+    names = ["WF", "K1", "K2", "K3", "K4", "K5", "K6", "K7", "K5a", "K6f", "K3b", "KF"]
     for (brief, tr, endT, mon, conc), out in zip(lean_jobs, outs):
         py = " ".join("%s=%s" % (k, C.b01(not mon[k])) for k in names) + " conv=%s" % C.b01(not conc)
         py += " lastChange=%d" % last_change(tr)
@@ -988,10 +1166,10 @@ def run_inner(ctx):
     rng = C.rng_for(seed, "c07")
     tier = ctx["tier"]
     thorough = tier == "thorough"
-    n_scen = C.Budget(tier, 80, 300).n
+    n_scen = C.Budget(tier, 130, 300).n
     n_sweep = 0 if not thorough else max(1, n_scen // 10)  # scenarios whose every delivery is dropped in turn
     drops_per = 8 if not thorough else 24
-    lean_cap = 170 if not thorough else 1500  # the compiled Lean monitors cost ~0.1 s per trace: evaluated on a sample
+    lean_cap = 500 if not thorough else 4000  # the compiled Lean monitors cost ~0.03 s per trace: evaluated on a sample
     if ctx.get("widened"):
         n_scen *= 3
     lean_jobs = []
@@ -1012,8 +1190,9 @@ def run_inner(ctx):
         one(case, "corpus/" + name, True)
         res.count("corpus")
     for i in range(n_scen):
-        case = gen_case(rng, i)
+        case = gen_case(rng, i, 0.04 if not thorough else 0.12)
         base = one(case, "gen/%d" % i, True)
+        res.count("family:" + case.get("family", "short"))
         n = base["ndeliveries"]
         # every choice of one dropped delivery: swept for the first scenarios of the thorough tier, sampled otherwise and
         # biased to deliveries of PTR-carrying datagrams (announcements / goodbyes / answers: the ones the argument rests on)
@@ -1026,7 +1205,7 @@ def run_inner(ctx):
             cand = drop_choices(rng, n, drops_per)
             if important:
                 cand = sorted(set(cand) | set(rng.sample(important, min(len(important), max(2, drops_per // 2)))))
-        lean_pick = set(rng.sample(cand, min(len(cand), 2))) if len(lean_jobs) < lean_cap else set()
+        lean_pick = set(rng.sample(cand, min(len(cand), 4))) if len(lean_jobs) < lean_cap else set()
         for d in cand:
             c2 = json.loads(json.dumps(case))
             c2["net"]["drop"] = d
